@@ -24,6 +24,7 @@ import (
 	"io"
 	"net"
 	"net/http"
+	"os"
 	"runtime/debug"
 	"sort"
 	"strings"
@@ -873,11 +874,39 @@ var assumptionsA = []string{
 }
 
 func TestC16a(t *testing.T) {
-	core.Run(t, core.Spec[CaseA]{Property: "C16", Sub: "a", Rule: "(no HTTP removal; 1-10 steps) " + ruleA, Gen: genA, Check: checkA, Classify: classifyA, Assumptions: assumptionsA})
+	core.Run(t, core.Spec[CaseA]{Property: "C16", Sub: "a", Rule: "(no HTTP removal; 1-10 steps) " + ruleA, Gen: genA, Check: shrinkBudget(40*time.Second, checkA), Classify: classifyA, Assumptions: assumptionsA})
+}
+
+// shrinkBudget bounds what minimising a failing history may cost: in (b) every attempt pays
+// 5 s per HTTP removal, in (a) an HTTPS add pays for an RSA key, and rapid's own time limit is only looked at between blocks, so a
+// single block can take a quarter of an hour.  Once the budget since the first failure
+// is spent, histories already known to fail answer from memory and new candidates are
+// not run (reported as passing, i.e. rejected by the shrinker); the kept failing case
+// is then simply less minimal.  Has no effect while nothing fails.
+func shrinkBudget[C any](d time.Duration, check func(C) *core.Violation) func(C) *core.Violation {
+	var (
+		firstFail time.Time
+		seen      = map[string]*core.Violation{}
+	)
+	return func(c C) *core.Violation {
+		if os.Getenv("VERIF_REPLAY") != "" {
+			return check(c)
+		}
+		key := fmt.Sprintf("%+v", c)
+		if !firstFail.IsZero() && time.Since(firstFail) > d {
+			return seen[key]
+		}
+		v := check(c)
+		if v != nil {
+			if firstFail.IsZero() {
+				firstFail = time.Now()
+			}
+			seen[key] = v
+		}
+		return v
+	}
 }
 
 func TestC16b(t *testing.T) {
-	core.Run(t, core.Spec[CaseA]{Property: "C16", Sub: "b", Rule: "(one or two removals of an HTTP listener per history, running or failed-to-start, 5 s each in (*HTTP).Stop) " + ruleA, Gen: genB, Check: checkA, Classify: classifyA, Assumptions: assumptionsA})
+	core.Run(t, core.Spec[CaseA]{Property: "C16", Sub: "b", Rule: "(one or two removals of an HTTP listener per history, running or failed-to-start, 5 s each in (*HTTP).Stop) " + ruleA, Gen: genB, Check: shrinkBudget(40*time.Second, checkA), Classify: classifyA, Assumptions: assumptionsA})
 }
-
-var _ = time.Second
